@@ -369,25 +369,36 @@ def eval_first_wins(installed):
     out = []
     with environment() as env:
         env.bench.set_only({nm: (xs.REAL_CONVENTION[nm], 'plain') for nm in installed})
+        cand = [nm for nm in order if nm in installed]
+        # `sameas` is documented as the interface to use for the solver named in `cmd`; without a command line
+        # "the known solvers are tried in succession" and "for the supported solver we can pick the right interface":
+        # a valid `sameas` must therefore not change the outcome, an unsupported one raises the documented ValueError.
+        sameas_values = [None] + [REPRESENTATIVE[c] for c in CONVS] + ['no-such-solver']
         for cmd in (None, '', '   '):
-            for method in ('solve', 'is_satisfiable'):
-                env.bench.clear_log()
-                env.sweep()
-                kind, val = _call(F, method, cmd, None)
-                log = env.bench.read_log()
-                cand = [nm for nm in order if nm in installed]
-                if not cand:
-                    if kind != 'exc' or not isinstance(val, RuntimeError) or log:
-                        out.append(('no-solver', 'nothing installed, cmd={!r}: {} {}'.format(cmd, method, _show(kind, val))))
-                else:
-                    want = (True, [-1, 2]) if method == 'solve' else True
-                    if kind == 'exc' or val != want or [r['name'] for r in log] != [cand[0]]:
-                        out.append(('first-installed', 'installed {}, cmd={!r}: {} {}; solvers run: {}; expected {} (first of supported_satsolvers())'.format(
-                            installed, cmd, method, _show(kind, val), [r['name'] for r in log], cand[0])))
-                if env.leftovers():
-                    ran = log[0]['conv'] if log else (xs.REAL_CONVENTION[cand[0]] if cand else 'none')
-                    out.append(('tempfiles:' + ran, 'installed {}: temporary files left: {}'.format(installed, env.leftovers())))
+            for sameas in sameas_values:
+                for method in ('solve', 'is_satisfiable'):
+                    env.bench.clear_log()
                     env.sweep()
+                    kind, val = _call(F, method, cmd, sameas)
+                    log = env.bench.read_log()
+                    tag = '' if sameas is None else ':sameas'
+                    ctxt = 'installed {}, cmd={!r}, sameas={!r}'.format(installed, cmd, sameas)
+                    if sameas == 'no-such-solver':
+                        if kind != 'exc' or not isinstance(val, ValueError) or log:
+                            out.append(('errors:unknown-sameas-autodetect', '{}: {} {}; solvers run: {}; expected ValueError'.format(
+                                ctxt, method, _show(kind, val), [r['name'] for r in log])))
+                    elif not cand:
+                        if kind != 'exc' or not isinstance(val, RuntimeError) or log:
+                            out.append(('no-solver' + tag, '{}: nothing installed, {} {}'.format(ctxt, method, _show(kind, val))))
+                    else:
+                        want = (True, [-1, 2]) if method == 'solve' else True
+                        if kind == 'exc' or val != want or [r['name'] for r in log] != [cand[0]]:
+                            out.append(('first-installed' + tag, '{}: {} {}; solvers run: {}; expected {} with its own interface (first of supported_satsolvers())'.format(
+                                ctxt, method, _show(kind, val), [r['name'] for r in log], cand[0])))
+                    if env.leftovers():
+                        ran = log[0]['conv'] if log else (xs.REAL_CONVENTION[cand[0]] if cand else 'none')
+                        out.append(('tempfiles:' + ran, '{}: temporary files left: {}'.format(ctxt, env.leftovers())))
+                        env.sweep()
         some = cnfgen.some_solver_installed()
         if some is not bool(installed):
             out.append(('some_solver_installed', 'installed {}: some_solver_installed() = {!r}'.format(installed, some)))
@@ -406,7 +417,7 @@ def bounded_dispatch(ctx):
     thorough = ctx.tier == 'thorough'
     names = sorted(xs.REAL_CONVENTION)
     ctx.bounds['dispatch'] = ('every supported name with a documented-unambiguous convention ({}) installed alone; all subsets of {} '
-                              'installed together with cmd None / empty / blank').format(names, ['lingeling', 'minisat', 'sat4j', 'cadical'] if thorough else ['lingeling', 'minisat', 'sat4j'])
+                              'installed together with cmd None / empty / blank x sameas in (None, lingeling, sat4j, minisat, an unsupported name)').format(names, ['lingeling', 'minisat', 'sat4j', 'cadical'] if thorough else ['lingeling', 'minisat', 'sat4j'])
     tasks = []
     for name in names:
         for shape in (('split', 'plain', 'scrambled') if thorough else ('split',)):
